@@ -140,6 +140,10 @@ def shards(tier):
         out += [{"kind": "reuse", "n": 1500 if quick else 20000} for _ in range(2)]
     except ImportError:
         pass
+    # every sequence of <= L tokens over the tiny foreign/table alphabets of C03: error sites that need a choreography (an assertion
+    # instead of a parse error shows here as 'another exception type')
+    for ai in (6, 7, 8):
+        out.append({"kind": "tiny", "alphabet": ai, "len": 4 if quick else 6})
     return out
 
 
@@ -162,6 +166,21 @@ def run_shard(desc, seed, tier):
                 case = {"text": text[:k], "container": container, "scripting": scripting}
                 acc.add(case, check_case(case))
         drive(st.tuples(soup.soup_text(max_items=14), ctx, st.booleans()), fn, desc["n"], seed)
+    elif kind == "tiny":
+        import itertools
+        from vf.props.c03 import TINY
+        al = TINY[desc["alphabet"]]
+        n = 0
+        for ln in range(1, desc["len"] + 1):
+            for tup in itertools.product(al, repeat=ln):
+                n += 1
+                case = {"text": ("<!DOCTYPE html>" if n % 2 else "") + "".join(tup), "container": None if n % 3 else "div", "scripting": False}
+                acc.add(case, check_case(case))
+        if desc["alphabet"] == 6:
+            for k, text in enumerate(soup.foreign_namesake_docs()):
+                case = {"text": ("<!DOCTYPE html>" if k % 2 else "") + text, "container": None if k % 5 else "div", "scripting": False}
+                acc.add(case, check_case(case))
+        acc.extra["tiny_sequences"] = n
     elif kind == "reuse":
         from vf.gen.soup import sized_binary
         from vf.props.c12 import decode_doc
